@@ -55,6 +55,25 @@ def _uuid4():
     return uuid.UUID("%08x-0000-4000-8000-%012x" % (IdSource.run & 0xFFFFFFFF, IdSource.n))
 
 
+class Entropy:
+    """os.urandom / random.SystemRandom / secrets inside a run: a deterministic stream per run (a change under
+    test may draw scratch-file names from them; replays must still be exact)"""
+    run = 0
+    n = 0
+    real = os.urandom
+
+    @classmethod
+    def urandom(cls, size):
+        if sched.CURRENT is None:
+            return cls.real(size)
+        import hashlib
+        out = b""
+        while len(out) < size:
+            cls.n += 1
+            out += hashlib.sha256(b"dst-entropy:%d:%d" % (cls.run, cls.n)).digest()
+        return out[:size]
+
+
 def bootstrap(coop_locks=True):
     global _booted
     if _booted:
@@ -72,6 +91,9 @@ def bootstrap(coop_locks=True):
     import uuid
     uuid.uuid4 = _uuid4
     os.getpid = lambda: 4242          # process ids end up in temp-file names; keep runs replayable
+    import random as _random
+    os.urandom = Entropy.urandom
+    _random._urandom = Entropy.urandom
     import time as _time
     import http.cookiejar
     http.cookiejar.time = _SimTime(_time)
